@@ -1,10 +1,24 @@
 #!/bin/sh
-# tools/mutcheck.sh <patch.diff> <Cxx> [Cxx ...]   -- applies the patch to /repo, runs the checks (evidence goes to a scratch
-# directory so that committed evidence is not overwritten by runs on a mutated tree), and reverts the patch.
+# tools/mutcheck.sh <patch.diff (absolute path)> <Cxx> [Cxx ...]   -- applies the patch to /repo, runs the checks (evidence goes to a
+# scratch directory so that committed evidence is not overwritten by runs on a mutated tree), replays every reported failing input on
+# the mutated tree (must fail again) and on the restored tree (must pass), and reverts the patch.
+# Never run this while a soak is running: it patches /repo in place.
 cd "$(dirname "$0")/.."
 P="$1"; shift
 git -C /repo apply "$P" || { echo "patch does not apply: $P"; exit 2; }
+REPLAYS=""
 for c in "$@"; do
-  VERIF_EVIDENCE_DIR="$PWD/build/mut-ev" ./check "$c" 2>&1 | grep -E "VIOLATION|KNOWN-FINDING| ok | FAIL |broken" | sed "s|^|[$c] |"
+  OUT=$(VERIF_EVIDENCE_DIR="$PWD/build/mut-ev" ./check "$c" 2>&1)
+  echo "$OUT" | grep -E "VIOLATION|KNOWN-FINDING| ok | FAIL |broken" | sed "s|^|[$c] |"
+  for r in $(echo "$OUT" | grep "^VIOLATION" | grep -v no-failing-input-found | sed 's/.*replay=\([^ ]*\).*/\1/'); do
+    ./check "$c" --replay "$r" > /dev/null 2>&1; rc=$?
+    [ $rc -eq 1 ] && echo "[$c] replay on the changed tree: fails again (exit 1)" || echo "[$c] REPLAY DOES NOT REPRODUCE on the changed tree (exit $rc): $r"
+    REPLAYS="$REPLAYS $c:$r"
+  done
 done
 git -C /repo checkout -- .
+for cr in $REPLAYS; do
+  c=${cr%%:*}; r=${cr#*:}
+  ./check "$c" --replay "$r" > /dev/null 2>&1; rc=$?
+  [ $rc -eq 0 ] && echo "[$c] replay on the restored tree: passes (exit 0)" || echo "[$c] REPLAY FAILS ON THE RESTORED TREE (exit $rc): $r"
+done
